@@ -77,6 +77,26 @@ CLAIMED = {
         note="Only accesses from outside the bare object are logged; notifications are compared with the uid diff / cell of the accepted trial.",
         technique="deterministic simulation with strict user plug-ins at the protocol seam; access-log and notification-log oracles",
         design="§4 C20"),
+    "C07": dict(
+        level="fault_enumeration",
+        text=("For every generated deployment the process is made to die at EVERY completed write of the restart observer "
+              "(all restart points k are enumerated); the durable bytes are loaded the documented way (read_json -> "
+              "Cls.from_dict -> re-attach calculator) and the resumed run's per-step trace must equal the uninterrupted "
+              "run's suffix exactly. A sample of recoveries happens in a fresh interpreter with a random first import and "
+              "another PYTHONHASHSEED. Deployments (drivers, move tables, masks, composites, molecular exchange) are sampled."),
+        note="Restart points per deployment exhaustive, deployments sampled; calculators are analytic and re-attached by the harness as the documentation says; callables excepted.",
+        technique="deterministic simulation with crash-restart fault at every restart point; uninterrupted run as oracle",
+        design="§4 C07"),
+    "C08": dict(
+        level="exploration",
+        text=("Every serializable class found by introspection is configured away from its defaults (constructor parameters "
+              "and documented tunables, composites nested to depth 3), written as JSON and rebuilt by registered name in a "
+              "different process: in a fresh interpreter for each public module imported first (fault: import order, hash "
+              "seed), and in-process for thousands of random variants; type, re-serialized dictionary and attribute values "
+              "must match. Driver-level settings go the same way for all eight drivers."),
+        note="The class x parameter sweep is enumeration; the simulated part is recovery by another process with a chosen initialisation order. Parameters without a value rule are reported, not judged.",
+        technique="crash-and-recover simulation across interpreter boundaries with import-order fault; original object as oracle",
+        design="§4 C08"),
 }
 
 NOT_APPLICABLE = {
